@@ -35,18 +35,18 @@ type sthread struct {
 }
 
 type scheduler struct {
-	mu      sync.Mutex
-	byGoid  map[uint64]*sthread
-	threads []*sthread
-	ctl     chan sevent
-	trace   []string // "T<tid>@<point>" in the order the controller resumed from them
-	choices []int    // schedule prefix; afterwards `fallback`
+	mu       sync.Mutex
+	byGoid   map[uint64]*sthread
+	threads  []*sthread
+	ctl      chan sevent
+	trace    []string // "T<tid>@<point>" in the order the controller resumed from them
+	choices  []int    // schedule prefix; afterwards `fallback`
 	fallback func(n int) int
 	policy   func(s *scheduler, enabled []*sthread) int // used after the choice prefix, before fallback
-	lastTid  int                                         // thread resumed by the previous decision (-1 at the start)
-	branch  []int // branching factor seen at each decision (for systematic enumeration)
-	taken   []int
-	blockTO time.Duration
+	lastTid  int                                        // thread resumed by the previous decision (-1 at the start)
+	branch   []int                                      // branching factor seen at each decision (for systematic enumeration)
+	taken    []int
+	blockTO  time.Duration
 	deadlock bool
 }
 
